@@ -985,11 +985,47 @@ def _with_env(fn):
                 os.environ[n] = v
 
 
+def slots_object_probe(ctx, root):
+    """an object definition whose class cannot carry the library's bookkeeping (a class with `__slots__`) and whose own `repr` shows its
+    arguments: either the config is refused, or the key keeps the placeholder form — the value substituted for `{D}` never decides a location"""
+    import sys
+    import types
+    from taskchain import Config, Task, Parameter
+    mod = types.ModuleType('tcv_slots_mod')
+    exec("class Slotted:\n    __slots__ = ('path',)\n    def __init__(self, path):\n        self.path = str(path)\n"
+         "    def __repr__(self):\n        return 'Slotted(%s)' % self.path\n", mod.__dict__)
+    sys.modules['tcv_slots_mod'] = mod
+
+    class Uses(Task):
+        class Meta:
+            name = 'uses'
+            parameters = [Parameter('obj')]
+
+        def run(self) -> dict:
+            return {}
+    case = {'probe': 'object definition of a class with __slots__, placeholder in an argument'}
+    ctx.case(case); ctx.count('slots-object-probe')
+    keys = {}
+    try:
+        for d_ in ('/srv/a', '/mnt/b'):
+            try:
+                ch = Config(root / 'slots', name='c', data={'tasks': [Uses], 'obj': {'class': 'tcv_slots_mod.Slotted', 'kwargs': {'path': '{D}/corpus'}}},
+                            global_vars={'D': d_}).chain()
+                keys[d_] = ch.tasks['uses'].name_for_persistence
+            except (AttributeError, ValueError, TypeError) as e:
+                keys[d_] = ('refused', type(e).__name__)
+        if all(isinstance(v, str) for v in keys.values()) and len(set(keys.values())) > 1:
+            ctx.fail('the value substituted for a placeholder changed a storage key', case, keys)
+    finally:
+        sys.modules.pop('tcv_slots_mod', None)
+
+
 def run(ctx):
     quiet()
     root = ctx.tmpdir()
     route_shared_context(ctx, ctx.n(150, 1200), root)
     route_shared_file(ctx, ctx.n(60, 600), root)
+    slots_object_probe(ctx, root)
     _with_env(lambda: route_direct(ctx, ctx.n(5000, 40000)))
     route_config(ctx, ctx.n(1500, 12000), root / 'cfg')
     route_chain(ctx, ctx.n(120, 1000), root)
